@@ -1,4 +1,4 @@
-import GuppyVerif.Lemmas.C01Bridge
+import GuppyVerif.Lemmas.C01StoreSub
 /-! # C01 — wiring discipline of `DFContainer.__getitem__` / `__setitem__` (partial)
 
 Property theorems only.  They cover the pack/unpack discipline of struct and tuple places in
@@ -151,5 +151,40 @@ example :
       okAnd (getitem (setitem r1.2.1 10 [0, 7] false ⟨9, 0⟩ (.leaf false false)).1 10 [7] S)
         (fun r2 => decide (r2.2.2.2 = [.make 10 [⟨9, 0⟩, ⟨5, 1⟩]] ∧ r2.1 = ⟨10, 0⟩))) = true := by
   decide
+
+/-- **C01 (DFContainer is a correct store, any script)**: take any sequence of assignments to and
+    reads of sub-places of a variable `r : T` that the reference semantics `RefRun` of `Spec/C01`
+    accepts (assigned wires are old and carry values of the right shape; every read finds its
+    place fully defined — i.e. the sequence respects ownership: a read moves the non-copyable leaves
+    out).  Then the model run never fails, and under the op interpreter the wires returned by the
+    reads denote exactly the values the reference semantics predicts — whatever mixture of cached
+    packed wires, re-assigned fields and moved leaves the script produces.  (This is the statement
+    that was false before repair 32e45a7.) -/
+theorem store_script_correct (T : Ty) (r : PlaceId) (hr : r ≠ []) (env0 : Env) (n0 : Nat)
+    (script : List SOp) (vs : List Val) (h : RefRun T env0 n0 script (blank T) vs) :
+    ∃ ws L n ops, runScript T r script Locals.empty n0 = .ok (ws, L, n, ops) ∧
+      ∃ env', evalOps env0 ops = some env' ∧ env'.all ws = some vs := by
+  obtain ⟨ws, L2, n2, ops, e, env2, b1, b2, _⟩ :=
+    runScript_good T r hr env0 n0 script _ vs _ n0 env0 h (blank_good n0 env0 T r) (Nat.le_refl _)
+      (fun _ _ => rfl)
+  exact ⟨ws, L2, n2, ops, e, env2, b1, b2⟩
+
+/-- non-vacuity: the defect-witness script `s = w0; read s; s.q = w1; read s` on
+    `s : {q: qubit, y: int}` is accepted by the reference semantics, which predicts that the
+    second read sees the new qubit -/
+example :
+    let T : Ty := .node .struct [.leaf false false, .leaf true true]
+    let env0 : Env := fun x =>
+      if x = ⟨2, 0⟩ then some (.tup [.atom 1, .atom 2]) else if x = ⟨2, 1⟩ then some (.atom 9) else none
+    RefRun T env0 5 [.set [] ⟨2, 0⟩, .get [], .set [0] ⟨2, 1⟩, .get []] (blank T)
+      [.tup [.atom 1, .atom 2], .tup [.atom 9, .atom 2]] := by
+  intro T env0
+  refine RefRun.set (t' := T) (v := .tup [.atom 1, .atom 2]) rfl rfl (by decide)
+    (by simp [T, Val.HasShape, HasShapes]) ?_
+  refine RefRun.get (t' := T) (pv' := .tup [.val (.atom 1), .val (.atom 2)]) rfl rfl rfl ?_
+  refine RefRun.set (t' := .leaf false false) (v := .atom 9) rfl rfl (by decide)
+    (by simp [Val.HasShape]) ?_
+  refine RefRun.get (t' := T) (pv' := .tup [.val (.atom 9), .val (.atom 2)]) rfl rfl rfl ?_
+  exact RefRun.nil _
 
 end GuppyVerif.Wiring
